@@ -55,7 +55,7 @@ pub fn registry() -> Vec<PropDef> {
         def("C10", 10, c10::case, None, true),
         def("C11", 11, c11::case, None, true),
         def("C12", 12, c12::case, Some(c12::advertised), true),
-        def("C13", 13, c13::case, None, true),
+        def("C13", 13, c13::case, Some(c13::sweep), true),
         def("C14", 14, c14::case, None, true),
         def("C15", 15, c15::case, None, true),
         def("C16", 16, c16::case, Some(c16::exp_golomb_sweep), true),
